@@ -173,10 +173,12 @@ class World:
     def __init__(self, repo):
         self.repo = repo
         self.mods = {}
+        self.sdepth = {}       # shared key -> container depth of the literal (1 = flat) or None
         self.skind = {}        # shared key -> 'flat' | 'nested'
         self.sorigin = {}      # shared key -> (module, class or None, name)
         self.notes = []
         self.whitelist = []    # (key, justification)
+        self._counts = {}
         self.atypes = {}       # (Cls, attr) -> type tags of the values stored in the attribute
         self.aetypes = {}      # (Cls, attr) -> type tags of the elements of the container stored there
         self.types_changed = False
@@ -343,6 +345,8 @@ class World:
         if isinstance(e, ast.Name):
             if e.id in env:
                 return env[e.id]
+            if e.id in self.BUILTIN_LEAVES:
+                return 'imm'
             if e.id in m.gkind:
                 return m.gkind[e.id]
             if e.id in m.classes or e.id in m.funcs:
@@ -403,7 +407,7 @@ class World:
             return 'imm' if k in ('imm', 'flat') else 'nested'
         if isinstance(e, ast.Call):
             d = dotted(e.func)
-            if d in IMM_CALLS:
+            if d in IMM_CALLS or (d or '').startswith('os.path.') or (d or '').startswith('os.environ.'):
                 if d == 'tuple' and e.args and K(e.args[0]) == 'nested':
                     return 'nested'
                 return 'imm'
@@ -419,6 +423,35 @@ class World:
         if isinstance(e, ast.Starred):
             return K(e.value)
         raise GenError('import-time expression %s in %s' % (type(e).__name__, m.name))
+
+    BUILTIN_LEAVES = {'int', 'float', 'str', 'bool', 'bytes', 'None', 'True', 'False', 'complex'}
+
+    def depth_of(self, e, m, env):
+        """number of container levels of an import-time literal above its immutable leaves
+        (1 = flat); None when unknown"""
+        if isinstance(e, (ast.List, ast.Set, ast.Tuple)):
+            subs = list(e.elts)
+        elif isinstance(e, ast.Dict):
+            if any(k is None for k in e.keys):
+                return None
+            subs = list(e.values)
+        else:
+            return None
+        d = 0
+        for x in subs:
+            if isinstance(x, ast.Name) and x.id in self.BUILTIN_LEAVES:
+                continue
+            try:
+                k = self.kind_of(x, m, env)
+            except GenError:
+                return None
+            if k == 'imm':
+                continue
+            dx = self.depth_of(x, m, env)
+            if dx is None:
+                return None
+            d = max(d, dx)
+        return d + 1
 
     def classify_scope(self, m, body, kinds, values, env_extra=None):
         env = dict(env_extra or {})
@@ -444,6 +477,8 @@ class World:
 
     def bind_target(self, t, k, value, env, kinds, values, m):
         if isinstance(t, ast.Name):
+            cnt = self._counts.setdefault(id(kinds), {})
+            cnt[t.id] = cnt.get(t.id, 0) + 1
             if t.id in kinds and kinds[t.id] != 'imm' and k == 'imm':
                 k = kinds[t.id]     # once mutable, always listed
             env[t.id] = kinds[t.id] = k
@@ -473,28 +508,36 @@ class World:
                 self.classify_module(self.mods[imp[1]])
         stmts = list(self.top_statements(m.tree.body))
         genv = self.classify_scope(m, stmts, m.gkind, m.gvalue)
+        m.gassigned = self._counts.get(id(m.gkind), {})
         for name, k in m.gkind.items():
             if k != 'imm':
                 key = 'G:%s.%s' % (m.name, name)
                 self.skind[key] = k
                 self.sorigin[key] = (m.name, None, name)
+                self.sdepth[key] = self.depth_of(m.gvalue.get(name), m, genv) if m.gassigned.get(name) == 1 else None
         for c in m.classes.values():
             for b in c.bases:
                 self.classify_module(b.mod)
             self.classify_scope(m, c.node.body, c.ckind, c.cvalue)
+            c.cassigned = self._counts.get(id(c.ckind), {})
             for name, k in c.ckind.items():
                 if k != 'imm':
                     key = 'C:%s.%s' % (c.qual, name)
                     self.skind[key] = k
                     self.sorigin[key] = (m.name, c.name, name)
+                    self.sdepth[key] = self.depth_of(c.cvalue.get(name), m, dict(c.ckind)) \
+                        if c.cassigned.get(name) == 1 else None
         for f in self.all_functions(m):
             a = f.node.args
             pos = a.posonlyargs + a.args
+            env = dict(genv)
+            if f.cls is not None:
+                env.update(f.cls.ckind)
             for arg, d in zip(pos[len(pos) - len(a.defaults):], a.defaults):
-                self.default(f, arg.arg, d, genv)
+                self.default(f, arg.arg, d, env)
             for arg, d in zip(a.kwonlyargs, a.kw_defaults):
                 if d is not None:
-                    self.default(f, arg.arg, d, genv)
+                    self.default(f, arg.arg, d, env)
 
     def default(self, f, pname, d, genv):
         k = self.kind_of(d, f.mod, genv)
@@ -629,7 +672,29 @@ class World:
             return all(self.imm_expr(x, c, f) for x in e.elts)
         if isinstance(e, ast.Call) and dotted(e.func) in IMM_CALLS - {'getattr', 'tuple', 'min', 'max', 'sum'}:
             return True
+        if isinstance(e, ast.Subscript) and not isinstance(e.slice, ast.Slice) and self.flat_source(e.value, c, f):
+            return True
         return False
+
+    def name_key(self, x, f):
+        """shared key a module-level name / imported name denotes, or None"""
+        if isinstance(x, ast.Name) and x.id not in self.locals_of(f):
+            if x.id in f.mod.gkind:
+                return 'G:%s.%s' % (f.mod.name, x.id)
+            imp = f.mod.imports.get(x.id)
+            if imp and imp[0] == 'name':
+                return 'G:%s.%s' % (imp[1], imp[2])
+        return None
+
+    def finite_depth_attr(self, c, a):
+        """attribute a of class c always denotes the class-level literal, whose leaves are immutable"""
+        for k in self.family[c]:
+            if a in self.stores[k]:
+                return False
+        b = self.class_binding(c, a)
+        if b is None or b[1] == 'method':
+            return False
+        return b[1] in ('imm', 'flat') or self.sdepth.get('C:%s.%s' % (b[0].qual, a)) is not None
 
     def flat_expr(self, e, c, f):
         """expression that creates a new container whose elements are immutable"""
@@ -645,6 +710,10 @@ class World:
         src = self.copy_source(e)
         if src is not None:
             return self.flat_source(src, c, f)
+        if isinstance(e, ast.Subscript) and not isinstance(e.slice, ast.Slice):
+            key = self.name_key(e.value, f)
+            if key is not None and self.sdepth.get(key) == 2:
+                return True        # an element of a dict/list of flat containers
         return False
 
     @staticmethod
@@ -764,7 +833,17 @@ class Analyzer:
         """atoms of something obtained *from inside* an object with these atoms"""
         out = set()
         for a in atoms:
-            if a[0] == 'K' and self.W.skind.get(a[1]) == 'flat':
+            if a[0] == 'K':
+                d = a[2] + 1
+                depth = self.W.sdepth.get(a[1])
+                if self.W.skind.get(a[1]) == 'flat':
+                    depth = 1
+                if depth is not None and d >= depth:
+                    continue          # reached the immutable leaves
+                out.add(('K', a[1], min(d, 3)))
+                continue
+            if a[0] == 'P':
+                out.add(('P', a[1], min(a[2] + 1, 3)))
                 continue
             if a[0] == 'S' and fn.cls is not None and self.W.attr_kind(fn.cls, a[1]) in ('imm', 'flat'):
                 continue
@@ -816,15 +895,15 @@ class FnAnalysis:
         for i, p in enumerate(f.params):
             if i == 0 and self.selfname:
                 continue
-            self.env[p] = {('P', i)}
+            self.env[p] = {('P', i, 0)}
         for p in f.kwonly:
-            self.env[p] = {('P', 'kw:' + p)}
+            self.env[p] = {('P', 'kw:' + p, 0)}
         if f.vararg:
-            self.env[f.vararg] = {('P', '*')}
+            self.env[f.vararg] = {('P', '*', 0)}
         if f.kwarg:
-            self.env[f.kwarg] = {('P', '**')}
+            self.env[f.kwarg] = {('P', '**', 0)}
         for p, key in f.defaults.items():
-            self.env.setdefault(p, set()).add(('K', key))
+            self.env.setdefault(p, set()).add(('K', key, 0))
         self.locals = self.W.locals_of(f)
         self.vt = {}
         self.vet = {}
@@ -1230,6 +1309,12 @@ class FnAnalysis:
         W, f = self.W, self.f
         out = set()
         for a in base:
+            if a[0] == 'CLS?':
+                raise GenError('%s:%s: attribute %s of the class of an object of unknown type'
+                               % (self.m.path, getattr(e, 'lineno', '?'), e.attr))
+            if a[0] == 'SELF' and e.attr == '__class__' and self.c is not None:
+                out.add(('CLS', self.c.qual))
+                continue
             if a[0] == 'SELF':
                 if self.c is not None and e.attr in self.prop_names(self.c):
                     g = self.an.find_method(self.c, e.attr)
@@ -1244,10 +1329,10 @@ class FnAnalysis:
                 c = self.class_by_qual(a[1])
                 b = W.class_binding(c, e.attr) if c else None
                 if b and b[1] in ('flat', 'nested'):
-                    out.add(('K', 'C:%s.%s' % (b[0].qual, e.attr)))
+                    out.add(('K', 'C:%s.%s' % (b[0].qual, e.attr), 0))
                 elif b is None and c is not None and not self.is_method_name(c, e.attr):
                     # attribute created at run time on the class object (cls.x = ...)
-                    out.add(('K', 'C:%s.%s' % (c.qual, e.attr)))
+                    out.add(('K', 'C:%s.%s' % (c.qual, e.attr), 0))
             elif a[0] == 'MOD':
                 full = a[1] + '.' + e.attr
                 if full in W.mods:
@@ -1258,7 +1343,7 @@ class FnAnalysis:
                         if e.attr in tm.classes:
                             out.add(('CLS', tm.classes[e.attr].qual))
                         elif tm.gkind.get(e.attr) in ('flat', 'nested'):
-                            out.add(('K', 'G:%s.%s' % (a[1], e.attr)))
+                            out.add(('K', 'G:%s.%s' % (a[1], e.attr), 0))
                         elif e.attr in tm.imports:
                             out |= self.import_atoms(tm, e.attr)
             elif a[0] == 'EXT':
@@ -1321,7 +1406,7 @@ class FnAnalysis:
         if imp[2] in tm.funcs:
             return {('FUN', tm.funcs[imp[2]].qual)}
         if tm.gkind.get(imp[2]) in ('flat', 'nested'):
-            return {('K', 'G:%s.%s' % (tm.name, imp[2]))}
+            return {('K', 'G:%s.%s' % (tm.name, imp[2]), 0)}
         if imp[2] in tm.imports:
             return self.import_atoms(tm, imp[2])
         return set()
@@ -1335,7 +1420,7 @@ class FnAnalysis:
         if name in self.env or name in self.locals:
             out = set(self.env.get(name, set()))
             if name in self.globals_decl and m.gkind.get(name) in ('flat', 'nested'):
-                out.add(('K', 'G:%s.%s' % (m.name, name)))
+                out.add(('K', 'G:%s.%s' % (m.name, name), 0))
             return out
         if name in m.classes:
             return {('CLS', m.classes[name].qual)}
@@ -1343,7 +1428,7 @@ class FnAnalysis:
             return {('FUN', m.funcs[name].qual)}
         if name in m.gkind:
             if m.gkind[name] in ('flat', 'nested'):
-                return {('K', 'G:%s.%s' % (m.name, name))}
+                return {('K', 'G:%s.%s' % (m.name, name), 0)}
             return set()
         if name in m.imports:
             return self.import_atoms(m, name)
@@ -1571,6 +1656,12 @@ class FnAnalysis:
                 out |= self.external(a[1], e, args, kwargs, allargs)
                 handled = True
         vals = self.values_only(fa) - {('SELF',)}
+        # a leaf of a literal whose leaves are immutable (a type, a function, a constant) is not a
+        # bound method of a mutable object
+        vals = {a for a in vals
+                if a != ('S', '*')
+                and not (a[0] == 'K' and (W.sdepth.get(a[1]) is not None or W.skind.get(a[1]) == 'flat'))
+                and not (a[0] == 'S' and self.c is not None and W.finite_depth_attr(self.c, a[1]))}
         if vals or not handled:
             # calling a value (bound method obtained by getattr, callback, thread target ...):
             # the objects it belongs to may be mutated, and so may the arguments
@@ -1589,11 +1680,33 @@ class FnAnalysis:
         an, f = self.an, self.f
         base = name.split('.')[-1]
         if name == 'getattr' or base == 'getattr':
-            # dynamic attribute lookup: used for method dispatch only in this code base; the
-            # result belongs to the object (calling it is handled as "calling a value")
+            # dynamic attribute lookup.  Constant name: same as the attribute expression.  Computed
+            # name on self: method dispatch in this code base; the result is "some attribute of self"
+            # ('S', '*'): calling it is calling a method of self, anything else done to it counts for
+            # every attribute.  On another object: the result belongs to that object.
+            if len(e.args) >= 2 and isinstance(e.args[1], ast.Constant) and isinstance(e.args[1].value, str):
+                fake = ast.Attribute(value=e.args[0], attr=e.args[1].value, ctx=ast.Load())
+                ast.copy_location(fake, e)
+                return self.attr_atoms(fake, args[0])
             if args and ('SELF',) in args[0]:
-                return set()                         # bound method of self
+                names = self.resolve_names(e.args[1]) if len(e.args) >= 2 else None
+                if names is None:
+                    return {('S', '*')}
+                out = set()
+                for n in sorted(names):
+                    fake = ast.Attribute(value=e.args[0], attr=n, ctx=ast.Load())
+                    ast.copy_location(fake, e)
+                    out |= self.attr_atoms(fake, {('SELF',)})
+                return out
             return self.values_only(args[0]) if args else set()
+        if name == 'type' and len(args) == 1:
+            # type(self) / type(x): the class object
+            if ('SELF',) in args[0] and self.c is not None:
+                return {('CLS', self.c.qual)}
+            qs = self.other_classes(e.args[0])
+            if None in qs:
+                return {('CLS?',)}
+            return {('CLS', q) for q in qs}
         if name in EXTERNAL_MUTATING or base in ('setattr', 'delattr'):
             if base in ('setattr', 'delattr') and args and ('SELF',) in args[0]:
                 raise GenError('%s:%s: dynamic setattr/delattr on self' % (self.m.path, e.lineno))
@@ -1635,6 +1748,77 @@ class FnAnalysis:
         # unknown external callable given something we track: conservative
         self.mut(allargs)
         return allargs
+
+    def table_values(self, t):
+        """string values of the dict literal(s) that self.<t> / Cls.<t> can denote, or None"""
+        if self.c is None:
+            return None
+        lits = []
+        for k in self.W.family[self.c]:
+            if t in k.cvalue:
+                lits.append(k.cvalue[t])
+            for v in self.W.stores[k].get(t, []):
+                lits.append(v)
+        if not lits:
+            return None
+        out = set()
+        for v in lits:
+            if not isinstance(v, ast.Dict):
+                return None
+            for x in v.values:
+                if isinstance(x, ast.Constant) and isinstance(x.value, str):
+                    out.add(x.value)
+                else:
+                    return None
+        return out
+
+    def resolve_names(self, x, depth=0):
+        """the strings expression x can evaluate to when they come from a constant or from a dispatch
+        table (dict literal with constant string values) of the class; None when unknown"""
+        if depth > 4:
+            return None
+        if isinstance(x, ast.Constant):
+            if isinstance(x.value, str):
+                return {x.value}
+            return set() if x.value is None else None
+        if isinstance(x, ast.Name):
+            vals = []
+            for n in ast.walk(self.f.node):
+                if isinstance(n, ast.Assign) and any(isinstance(t, ast.Name) and t.id == x.id for t in n.targets):
+                    vals.append(n.value)
+                elif isinstance(n, (ast.For, ast.comprehension, ast.AugAssign, ast.NamedExpr)) and \
+                        any(isinstance(t, ast.Name) and t.id == x.id for t in ast.walk(n.target)):
+                    return None
+                elif isinstance(n, ast.Assign) and any(
+                        isinstance(t, (ast.Tuple, ast.List)) and any(isinstance(y, ast.Name) and y.id == x.id
+                                                                     for y in ast.walk(t)) for t in n.targets):
+                    return None
+            if not vals or x.id in self.f.params:
+                return None
+            out = set()
+            for v in vals:
+                r = self.resolve_names(v, depth + 1)
+                if r is None:
+                    return None
+                out |= r
+            return out
+        tbl = None
+        if isinstance(x, ast.Subscript) and not isinstance(x.slice, ast.Slice):
+            tbl = x.value
+        elif isinstance(x, ast.Call) and isinstance(x.func, ast.Attribute) and x.func.attr == 'get' \
+                and 1 <= len(x.args) <= 2:
+            tbl = x.func.value
+            if len(x.args) == 2:
+                d = self.resolve_names(x.args[1], depth + 1)
+                if d is None:
+                    return None
+        if tbl is not None and isinstance(tbl, ast.Attribute) and isinstance(tbl.value, ast.Name) \
+                and tbl.value.id == self.selfname:
+            return self.table_values(tbl.attr)
+        if isinstance(x, ast.IfExp):
+            a, b = self.resolve_names(x.body, depth + 1), self.resolve_names(x.orelse, depth + 1)
+            return None if a is None or b is None else a | b
+        return None
 
     def construct(self, c, args, kwargs, e):
         """Cls(args): run __new__/__init__ of a scanned class on a new instance"""
@@ -1688,7 +1872,10 @@ class FnAnalysis:
 
         def sub(atom, with_recv=True):
             if atom[0] == 'P':
-                return (pmap.get(atom[1], set()) | star) - {('SELF',)}
+                got = (pmap.get(atom[1], set()) | star) - {('SELF',)}
+                for _ in range(atom[2]):
+                    got = an.elem(got, f)
+                return got
             if atom[0] == 'S':
                 if same:
                     return {atom}
@@ -1799,16 +1986,16 @@ class InitSeq:
                 and isinstance(s.targets[0].value, ast.Name) and s.targets[0].value.id == selfname:
             a = s.targets[0].attr
             v = s.value
-            src = W.copy_source(v)
-            is_self_copy = src is not None and isinstance(src, ast.Attribute) and \
-                isinstance(src.value, ast.Name) and (src.value.id == selfname) and src.attr == a
-            loads = self.self_loads(v, selfname)
-            if is_self_copy:
-                loads = self.self_loads(v, selfname, skip=(src,))
-                loads.discard(a) if a not in self.self_loads(v, selfname, skip=(src,)) else None
+            deep = self.deep_copy(v, a, g, selfname)
+            if deep is not None:
+                # self.a = <copy of the class-level a, as deep as the literal>: a fresh object
+                loads = self.self_loads(v, selfname, skip=(deep,))
+            else:
+                loads = self.self_loads(v, selfname)
             self.use(loads)
             self.calls_in(v, g, selfname)
-            local = W.imm_expr(v, self.c, g) or W.flat_expr(v, self.c, g) or self.fresh_expr(v, g, selfname)
+            local = deep is not None or W.imm_expr(v, self.c, g) or W.flat_expr(v, self.c, g) \
+                or self.fresh_expr(v, g, selfname)
             if local:
                 if a not in self.bad:
                     self.bound.add(a)
@@ -1854,6 +2041,93 @@ class InitSeq:
                     stored.add(n.attr)
             self.unsure(stored)
             self.calls_in(s, g, selfname)
+
+    def deep_copy(self, v, a, g, selfname):
+        """if v is a copy of the class-level object attribute a denotes (read as self.a or Cls.a) that
+        is at least as deep as the class-level literal, return the source node, else None"""
+        b = self.W.class_binding(self.c, a)
+        if b is None or b[1] == 'method' or a in self.bound:
+            return None
+        key = 'C:%s.%s' % (b[0].qual, a)
+        depth = 1 if b[1] in ('imm', 'flat') else self.W.sdepth.get(key)
+        if depth is None:
+            return None
+        r = self.copy_depth(v, {}, a, g, selfname)
+        if r is None:
+            return None
+        d, src = r
+        return src if (src is not None and d >= depth) else None
+
+    def copy_depth(self, e, env, a, g, selfname):
+        """(number of container levels copied, source node) for a copy expression of self.a / Cls.a;
+        env: comprehension variables denoting an element of the source -> levels already below it"""
+        INF = 99
+        if isinstance(e, ast.Attribute) and e.attr == a and isinstance(e.value, ast.Name):
+            if e.value.id == selfname:
+                return 0, e
+            k = self.W.lookup_class(g.mod, e.value.id)
+            if k is not None and k in self.c.mro:
+                return 0, e
+            return None
+        if isinstance(e, ast.Name) and e.id in env:
+            return 0, env[e.id]
+        if isinstance(e, ast.Call):
+            d = dotted(e.func)
+            if d in ('list', 'dict', 'set', 'sorted') and len(e.args) == 1 and not e.keywords:
+                r = self.copy_depth(e.args[0], env, a, g, selfname)
+                return None if r is None else (r[0] + 1, r[1])
+            if d in ('deepcopy', 'copy.deepcopy') and len(e.args) == 1:
+                r = self.copy_depth(e.args[0], env, a, g, selfname)
+                return None if r is None else (INF, r[1])
+            if d in ('copy', 'copy.copy') and len(e.args) == 1:
+                r = self.copy_depth(e.args[0], env, a, g, selfname)
+                return None if r is None else (r[0] + 1, r[1])
+            if isinstance(e.func, ast.Attribute) and e.func.attr == 'copy' and not e.args:
+                r = self.copy_depth(e.func.value, env, a, g, selfname)
+                return None if r is None else (r[0] + 1, r[1])
+            return None
+        if isinstance(e, ast.Subscript) and isinstance(e.slice, ast.Slice) and e.slice.lower is None \
+                and e.slice.upper is None and e.slice.step is None:
+            r = self.copy_depth(e.value, env, a, g, selfname)
+            return None if r is None else (r[0] + 1, r[1])
+        if isinstance(e, (ast.ListComp, ast.SetComp, ast.DictComp)) and len(e.generators) == 1 \
+                and not e.generators[0].ifs:
+            gen = e.generators[0]
+            it = gen.iter
+            mode = 'iter'
+            if isinstance(it, ast.Call) and isinstance(it.func, ast.Attribute) and not it.args \
+                    and it.func.attr in ('items', 'values'):
+                mode = it.func.attr
+                it = it.func.value
+            r = self.copy_depth(it, env, a, g, selfname)
+            if r is None or r[0] != 0:
+                return None
+            src = r[1]
+            env2 = dict(env)
+            if mode == 'items':
+                if not (isinstance(gen.target, ast.Tuple) and len(gen.target.elts) == 2
+                        and all(isinstance(x, ast.Name) for x in gen.target.elts)):
+                    return None
+                keyvar, valvar = gen.target.elts[0].id, gen.target.elts[1].id
+                env2[valvar] = src
+            else:
+                if not isinstance(gen.target, ast.Name):
+                    return None
+                keyvar, valvar = None, gen.target.id
+                env2[valvar] = src
+            if isinstance(e, ast.DictComp):
+                if not (isinstance(e.key, ast.Name) and e.key.id == keyvar or isinstance(e.key, ast.Constant)):
+                    return None
+                elt = e.value
+            else:
+                elt = e.elt
+            if isinstance(elt, ast.Constant):
+                return INF, src
+            r2 = self.copy_depth(elt, env2, a, g, selfname)
+            if r2 is None:
+                return None
+            return 1 + r2[0], src
+        return None
 
     def calls_in(self, node, g, selfname):
         for n in ast.walk(node):
@@ -2032,6 +2306,22 @@ def build_table(W, an):
                 info['alias_shared'].add((attr, a[1]))
         cn = {a for a, _ in info['cattrs']}
         info['shadowed'] = [a for a in InitSeq(W, an, c).shadowed if a in cn]
+        # ('S', '*'): some attribute of the instance, name computed at run time
+        every = set(cn)
+        for k in c.mro:
+            every |= set(W.stores[k])
+        if '*' in info['mutated']:
+            info['mutated'].discard('*')
+            info['mutated'] |= every
+        for fld in ('alias', 'alias_other'):
+            exp = set()
+            for (a, b) in info[fld]:
+                for a2 in (every if a == '*' else [a]):
+                    for b2 in (cn if b == '*' else [b]):
+                        exp.add((a2, b2))
+            info[fld] = exp
+        info['alias_shared'] = {(a2, k) for (a, k) in info['alias_shared'] for a2 in (every if a == '*' else [a])}
+        info['deleted'] = set().union(*[(every if a == '*' else {a}) for a in info['deleted']]) if info['deleted'] else set()
         for key, _ in wl:
             info['smut'].discard(key)
             info['srebind'].discard(key)
@@ -2090,7 +2380,7 @@ def emit(table, wl, skeys):
         L.append('  c_srebind := %s' % coq_list(sorted(ci['srebind'])))
         L.append('|}.')
         L.append('')
-    L.append('Definition table : table := [%s].' % '; '.join(names))
+    L.append('Definition gen_table : table := [%s].' % '; '.join(names))
     L.append('')
     L.append('(* shared objects found (key, kind) *)')
     L.append('Definition shared_keys : list (string * string) := %s.'
